@@ -3,5 +3,6 @@ CONSTANTS
   BoundedWalk = TRUE
   MaxLinkMaps = 4
   NNodes = 2
+  StopOnDecodeError = TRUE
 INVARIANTS Total NoDevOpen WalkBounded Emit
 CHECK_DEADLOCK FALSE
